@@ -231,6 +231,10 @@ def run(model, col, tier):
               "looks in its own table, then delegates to the parent until there is none", "does not look the name up in the own table and then in every enclosing table", NAMES, get)
     # parameters before body
     vf = vv.own_method("v_Function")
+    if vf is not None:
+        from ..sem import expand_helpers as _xh122
+
+        vf = _xh122(model, vv, vf)  # e.g. an extracted `__DeclareArguments(func, ctx)` is read in place
     for evs, status in paths(vf.body):
         cs = calls_on_path(evs)
         names = [last_attr(c) for c in cs]
@@ -324,6 +328,13 @@ def run(model, col, tier):
         col.check("FUNCTION_LOCAL" in val, "R12.4", f"{LOWER}::Context.RegisterFunctionLocalVariable scope", "registers scope FUNCTION_LOCAL", f"registers {val}", LOWER, reg)
         look = lctx.own_method("LookupVariableScope")
         rets = [unparse(r.value) for r in ast.walk(look) if isinstance(r, ast.Return)]
+        if rets != [f"self.{mapfield}[{look.args.args[1].arg}]"]:
+            # a memo in front of the lookup, invalidated wherever one of the maps changes, returns what the lookup returns
+            from ..memo import sound_method_memo as _smm
+
+            e_ = _smm(lctx, look)
+            if e_ is not None:
+                rets = [unparse(e_)]
         col.check(rets == [f"self.{mapfield}[{look.args.args[1].arg}]"], "R12.4", f"{LOWER}::Context.LookupVariableScope",
                   "resolves a name through the one per-function map", f"returns {rets}", LOWER, look)
         from ..sem import local_env as _le12, rtext as _rt12
